@@ -6,7 +6,7 @@ from worlds.reqpath import ReqPathRun, base_plan, RETRY, RETRY_NEXT_HOST, RETHRO
 from worlds.full import ReqObs
 
 ID = 'C19'
-TIERS = {'quick': {'runs': 4000, 'budget_s': 55, 'wall_cap': 120, 'block': 60},
+TIERS = {'quick': {'runs': 12000, 'budget_s': 55, 'wall_cap': 120, 'block': 60},
          'thorough': {'runs': 400000, 'budget_s': 840, 'wall_cap': 120, 'block': 60}}
 SHRINK_LISTS = ['requests']
 COVERAGE_RULE = ('one run = real Session.prepare + bound statement executions over 2-3 fake nodes (protocol 4 or 5); the node '
